@@ -296,6 +296,16 @@ fn mode_history(script: &str) {
                 file_ok = r.is_ok() == readable.is_some() && digest_pb(&fparser.validate()) == digest_pb(&fresh.validate());
                 note = format!(",\"addfile_ok\":{},\"readable\":{}", r.is_ok(), readable.is_some());
             }
+            "addpath" => {
+                // add_content on the path-keyed parser: the same id an add_file used / will use
+                let c = cache.entry(parts[2].to_string()).or_insert_with(|| std::fs::read_to_string(parts[2]).unwrap()).clone();
+                fparser.add_content(std::path::PathBuf::from(parts[1]), &c);
+                fmodel.insert(std::path::PathBuf::from(parts[1]), c);
+                let mut fresh: Parser<std::path::PathBuf> = Parser::new();
+                for (k, v) in fmodel.iter() { fresh.add_content(k.clone(), v); }
+                file_ok = digest_pb(&fparser.validate()) == digest_pb(&fresh.validate());
+                note = String::from(",\"addpath\":true");
+            }
             _ => {}
         }
         hist.push(line);
